@@ -35,13 +35,20 @@ class _Held:
 
 
 def _fresh(cfg_lo, cfg_hi, n, m):
-    return oc.mk_ev(list(cfg_lo), list(cfg_hi), n, m)
+    """the reference: a new object built directly on double arrays, used for one query only"""
+    return oc.mk_ev([float(v) for v in cfg_lo], [float(v) for v in cfg_hi], n, m, plain=True)
 
 
 def gen_history(r, maxlen):
     n = r.choice([1, 1, 2, 3, 4, 5])
     m = r.randint(1, 50 // n)
     lo, hi = oc.gen_box(r, n)
+    ctor = "double"
+    if r.random() < 0.2:
+        # the object is BUILT on an integer-typed box (Python ints or an int64 array), later re-configured with SetBounds
+        lo = [r.randint(-3, 0) for _ in range(n)]
+        hi = [l + r.choice([1, 2, 4]) for l in lo]
+        ctor = r.choice(["int-list", "int64-array"])
     ops = []
     L = r.randint(2, maxlen)
     for _ in range(L):
@@ -71,7 +78,7 @@ def gen_history(r, maxlen):
             ops.append(["setbounds", nlo, nhi])
         else:
             ops.append(["scribble", r.random(), [r.uniform(-1e3, 1e3) for _ in range(n)]])
-    return {"N": n, "m": m, "lower": lo, "upper": hi, "ops": ops}
+    return {"N": n, "m": m, "lower": lo, "upper": hi, "ops": ops, "ctor": ctor}
 
 
 def run_history(h, maxviol=3):
@@ -81,9 +88,15 @@ def run_history(h, maxviol=3):
     lo_arr = np.array(h["lower"], dtype=np.double)
     hi_arr = np.array(h["upper"], dtype=np.double)
     from iOpt.evolvent.evolvent import Evolvent
-    ev = Evolvent(lo_arr, hi_arr, n, m)
+    ctor = h.get("ctor", "double")
+    if ctor == "int-list":
+        ev = Evolvent([int(v) for v in h["lower"]], [int(v) for v in h["upper"]], n, m)
+    elif ctor == "int64-array":
+        ev = Evolvent(np.array(h["lower"], dtype=np.int64), np.array(h["upper"], dtype=np.int64), n, m)
+    else:
+        ev = Evolvent(lo_arr, hi_arr, n, m)
     cfg_lo, cfg_hi = list(h["lower"]), list(h["upper"])       # the bounds as configured (values, not arrays)
-    held = [_Held(lo_arr, "constructor lower", -1), _Held(hi_arr, "constructor upper", -1)]
+    held = [_Held(lo_arr, "constructor lower", -1), _Held(hi_arr, "constructor upper", -1)] if ctor == "double" else []
     returned = []
     kinds = {}
 
@@ -147,6 +160,8 @@ def run_history(h, maxviol=3):
             kinds["setbounds"] = kinds.get("setbounds", 0) + 1
             check_held(step, k)
         elif k == "scribble":
+            if not held:
+                continue
             hd = held[int(op[1] * len(held)) % len(held)]
             hd.arr[:] = np.array(op[2], dtype=np.double)[:len(hd.arr)]
             hd.snap = hd.arr.tobytes()
